@@ -261,9 +261,15 @@ def run(p, report, tier):
     report.rule("R1.4", "in every sequential selection loop the operand of the selection call depends, through a "
                 "loop-carried definition, on the picks of earlier iterations (otherwise earlier picks cannot be "
                 "excluded and an all-ties input returns duplicates)", floor=14)
+    report.rule("R1.4m", "the exclusion of earlier picks is by an explicit mechanism: (M1) a NaN/0/False store indexed by "
+                "the picks into the operand (or what it is computed from), also inside a project callee that receives "
+                "the picks; (M2) shrinking the pool by the pick (np.delete / pool mask); (M3, sampling only) zero "
+                "probability mass at distance-to-selected", floor=14)
     report.rule("R1.5", "the accumulator of picks that is used for masking is the value that flows to the returned "
                 "indices (a function that masks with one tie-break and lets the caller re-derive the picks is reported)",
                 floor=14)
+    report.rule("R1.6", "index translation: positions selected over a pool that was shrunk by np.delete reach the "
+                "returned indices only through a translating subscript T[positions]", floor=2)
     report.rule("R1.7", "no local is read before it is bound on any feasible path (branch-correlated) of any "
                 "function of the pool package and the selection utilities", floor=150)
     report.rule("R1.8", "a generator .choice whose result flows to returned indices draws without replacement "
@@ -308,6 +314,38 @@ def run(p, report, tier):
                    detail=("operand depends on earlier picks via " + ", ".join(sorted(carried)[:5])) if carried
                    else "the operand of the selection never depends on the accumulator of earlier picks: "
                         "they cannot be excluded (duplicates under ties)")
+        # R1.4m: the dependence goes through an exclusion mechanism
+        lvedges, _ = value_edges(L, ff.locs)
+        picks = forward_closure(rnames | acc, lvedges) | rnames | acc
+        # boolean pool masks flipped at the picks count as pick-derived indices
+        for n in ast.walk(L):
+            if isinstance(n, ast.Assign) and ast.unparse(n.value) in ("True", "False"):
+                for t in n.targets:
+                    if isinstance(t, ast.Subscript) and (index_names(t) & picks) and base_name(t):
+                        picks = picks | {base_name(t)}
+        ex = [(n, b, k) for (n, b, k) in exclusion_statements(L, picks) if b in back or b in ops]
+        via_callee = False
+        if not ex:
+            for c in ast.walk(L):
+                if isinstance(c, ast.Call) and c is not S and callee_exclusions(p, f, c, picks):
+                    # the call's result must feed the operand
+                    for st in ast.walk(L):
+                        if isinstance(st, ast.Assign) and any(x is c for x in ast.walk(st.value)):
+                            if any(base_name(t) in back for t in st.targets):
+                                via_callee = True
+        sampling_m3 = False
+        if not ex and not via_callee and callname(S) == "choice":
+            txt = " ".join(ast.unparse(x) for x in ast.walk(L) if isinstance(x, ast.Call)
+                           and callname(x) and "pairwise_distances" in callname(x))
+            sampling_m3 = bool(txt)
+        okm = bool(ex) or via_callee or sampling_m3
+        mech = (ex[0][2] + ": `" + norm_stmt(ex[0][0], 60) + "`") if ex else (
+            "M1/M2 inside a callee that receives the picks" if via_callee else
+            ("M3: zero sampling mass at distance-to-selected" if sampling_m3 else ""))
+        report.add("R1.4m", ent, construct, f"{f.file}:{S.lineno}", okm,
+                   detail=("exclusion mechanism " + mech) if okm else
+                   "earlier picks are not excluded by a mask (NaN/0/False store indexed by the picks) or by shrinking "
+                   "the pool; relying on distances/cluster cells alone fails for duplicated points and empty cells")
         # R1.5: picks flow (as values) to the returned indices
         vfw = forward_closure(rnames, ff.vedges)
         flows = bool((vfw | rnames) & ff.ret_closure)
@@ -320,6 +358,10 @@ def run(p, report, tier):
     # ---- R1.3 ------------------------------------------------------------
     for f in funcs:
         check_nan_discipline(p, report, f, facts[id(f.node)])
+
+    # ---- R1.6 ------------------------------------------------------------
+    from . import c08
+    c08.check_shrinking_pool(p, report, funcs, "R1.6")
 
     # ---- R1.8 ------------------------------------------------------------
     check_choice_replace(p, report, funcs, facts)
@@ -351,6 +393,70 @@ def loop_records(funcs, facts):
                 continue  # not an accumulating selection (e.g. a local arg-max)
             out.append((f, ff, L, S, rnames, acc, edges, fw))
     return out
+
+
+EXCL_VALUES = {"np.nan", "numpy.nan", "0", "0.0", "False", "True", "-np.inf", "np.inf", "-numpy.inf", "numpy.inf",
+               "float('nan')", "np.NaN"}
+
+
+def exclusion_statements(region, pick_names):
+    """M1: stores of NaN/0/False/inf (or a mask flip) indexed by a
+    pick-derived name;  M2: np.delete(..., <pick-derived>)."""
+    out = []
+    for n in ast.walk(region):
+        if isinstance(n, ast.Assign):
+            for t in n.targets:
+                if isinstance(t, ast.Subscript) and (index_names(t) & pick_names) \
+                        and ast.unparse(n.value).replace(" ", "") in EXCL_VALUES:
+                    out.append((n, base_name(t), "M1"))
+        elif isinstance(n, ast.Call) and callname(n) == "delete" and len(n.args) >= 2 \
+                and (names_in(n.args[1]) & pick_names):
+            out.append((n, None, "M2"))
+    # M2 result: v = np.delete(v0, picks)
+    res = []
+    for (n, b, kind) in out:
+        if kind == "M2":
+            for st in ast.walk(region):
+                if isinstance(st, ast.Assign) and any(x is n for x in ast.walk(st.value)):
+                    for t in st.targets:
+                        bb = base_name(t)
+                        if bb:
+                            res.append((st, bb, "M2"))
+        else:
+            res.append((n, b, kind))
+    return res
+
+
+def callee_exclusions(p, f, call, pick_names):
+    """Does a project callee that receives a pick-derived argument exclude by
+    M1/M2 on something that flows to its return value?"""
+    r = p.resolve_expr(f.module, call.func) if isinstance(call.func, (ast.Name, ast.Attribute)) else None
+    if r is None or r[0] != "func":
+        return False
+    g = r[1]
+    params = g.params()
+    recv = set()
+    for i, a in enumerate(call.args):
+        if (names_in(a) & pick_names) and i < len(params):
+            recv.add(params[i])
+    for k in call.keywords:
+        if k.arg and (names_in(k.value) & pick_names):
+            recv.add(k.arg)
+    if not recv:
+        return False
+    gedges = dep_edges(g.node.body)
+    glocs = local_names(g.node) | set(g.all_param_names())
+    gv, _ = value_edges(g.node, glocs)
+    derived_in_callee = forward_closure(recv, gv) | recv
+    ex = exclusion_statements(g.node, derived_in_callee)
+    if not ex:
+        return False
+    rets = set()
+    for n in ast.walk(g.node):
+        if isinstance(n, ast.Return) and n.value is not None:
+            rets |= names_in(n.value)
+    back = closure(rets, gedges)
+    return any(b in back for (_, b, _) in ex)
 
 
 def outside_defs(fnode, L):
